@@ -12,17 +12,17 @@ TECH = ("bounded symbolic execution of /repo's go/ssa (own SSA->SMT-LIB2 executo
 claimed = {
     "C01": dict(
         level="other",
-        text="Bounded symbolic execution of the whole post-YAML pipeline (validate, compile, output validators, templates) with the repository's templates interpreted symbolically from their parse trees (the interpreter is compared byte-for-byte with text/template on every run). The emitted text becomes a skeleton whose symbolic holes are placeholders; it is parsed with go/parser and the solver decides, for every feasible path: the text is syntactically valid Go for every value of the holes that validation admits, every runtime selector it uses exists in the pinned runtime, generated method names are identifiers, pairwise distinct and distinct from the embedded container's API, the getter error path is valid for value types, the packages the generated code itself needs resolve to themselves under every accepted alias table, parameter literals are Go literals, comments cannot be broken. This is NOT a run of the Go type checker or of the generated program: 'type-checks and init() does not panic' is claimed only through these obligations (level: other). Found and fixed: D5 (scope setters), D6 (nil for value types), D7; recorded: D3 (alias captures the template's own imports), D8 (non-finite floats).",
-        note="Trusted: template interpreter (validated each run), go/parser on the skeleton, exporter contract, identity stubs for gofmt/goimports. Outside: user Go text inside %fn(args)%, keyword/predeclared spellings, gofmt stability, go/types on the full file.",
+        text="Bounded symbolic execution of the whole post-YAML pipeline (validate, compile, output validators, templates) with the repository's templates interpreted symbolically from their parse trees (the interpreter is compared byte-for-byte with text/template on every run). The emitted text becomes a skeleton whose symbolic holes are placeholders; it is parsed with go/parser and the solver decides, for every feasible path: the text is syntactically valid Go for every value of the holes that validation admits, every runtime selector it uses exists in the pinned runtime, generated method names are identifiers, pairwise distinct and distinct from the embedded container's API, the getter error path is valid for value types, the packages the generated code itself needs resolve to themselves under every accepted alias table, parameter literals are Go literals, comments cannot be broken. In addition, per feasible path and as a concrete evaluation rather than a solver query, the whole skeleton is type-checked with go/types against the pinned runtime, with the user's packages and the symbols the configuration names declared as fixtures (types where used as types, values elsewhere) and unused imports pruned as goimports does. The generated program is not run: 'init() does not panic' is claimed through the obligation that the asserted interface lists exactly the generated methods (level: other). Found and fixed: D5 (scope setters), D6 (nil for value types), D7; recorded: D3 (alias captures the template's own imports), D8 (non-finite floats).",
+        note="Trusted: template interpreter (validated each run), go/parser and go/types on the skeleton, exporter contract, gofmt as identity and goimports as unused-import pruning. Outside: user Go text inside %fn(args)%, keyword/predeclared spellings, gofmt stability, go build with the user's real packages.",
         design="5.1"),
     "C17": dict(
         level="model_checking",
-        text="The same configuration is taken through validate, compile and the templates in both modes; on the two recovered definitions the solver decides: gontainerstub constraint only in the stub, same package / type / constructor, the same getter methods with hole-for-hole identical signatures, every stub body is panic(\"stub\"), no value, constructor, decorator or function of the user's packages occurs in the stub text, and the accept/reject decision is equal.",
+        text="The same configuration is taken through validate, compile and the templates in both modes; on the two recovered definitions the solver decides: gontainerstub constraint only in the stub, same package / type / constructor, the same getter methods with hole-for-hole identical signatures, every stub body is panic(\"stub\"), no value, constructor, decorator or function of the user's packages occurs in the stub text, and the accept/reject decision is equal; both files type-check (go/types, fixtures for the user's packages); and the real build command gives the same verdict, diagnostics and file effect with and without --stub on a menu of 20 configurations x the ignore flags.",
         note="Trusted: as C01. Not run: go build with and without the tag.",
         design="5.17"),
     "C02": dict(
         level="model_checking",
-        text="Generator side of the property: the six-strategy argument chain, the service compile step and its helpers are executed symbolically; every argument form must compile to the dependency the documentation names (literal of the same type, @service, !tagged, !value, $gontainer, else a parameter pattern), first match wins, and arguments / calls (with wither flag) / fields keep the declared order and values. That the runtime then executes a definition as documented is the external library's contract and is not executed.",
+        text="Generator side of the property: the six-strategy argument chain, the service compile step and its helpers are executed symbolically; every argument form must compile to the dependency the documentation names (literal of the same type, @service, !tagged, !value, $gontainer, else a parameter pattern), first match wins, and arguments / calls (with wither flag) / fields keep the declared order and values. That the runtime then executes a definition as documented is the external library's contract; it is represented by the engine's runtime-container model only where the generated getters of a container built by the current tree are executed (a creatable service, and one that fails because it needs a todo service).",
         note="Trusted: exporter stub, the wiring copied from gontainer_resolvers.yaml in the harness, solvers. Unquoted imports followed by dotted values are assumed away (ambiguous in the grammar itself).",
         design="5.2"),
     "C04": dict(
